@@ -39,8 +39,9 @@ def ans_states(ctx, laws, mode, widths=None):
 
 
 # (w, s, precisions) driven by the random-history drivers; exact validation needs s <= 16
-ANS_DRIVE_QUICK = [(8, 16, "1,2,3,4,5,6,7,8"), (2, 4, "1,2"), (3, 6, "1,2,3"), (16, 32, "1,4,8,12,16"), (32, 64, "1,8,12,16,24,32"), (16, 64, "1,8,12,16"), (8, 32, "1,4,8")]
-ANS_DRIVE_THOROUGH = ANS_DRIVE_QUICK + [(2, 6, "1,2"), (4, 8, "1,2,3,4"), (4, 12, "1,2,3,4"), (32, 128, "1,16,24,32"), (64, 128, "1,16,24,32"), (2, 8, "1,2")]
+ANS_DRIVE_QUICK = [(8, 16, "1,2,3,4,5,6,7,8"), (2, 4, "1,2"), (3, 6, "1,2,3"), (16, 32, "1,4,8,12,16"), (32, 64, "1,8,12,16,24,32"), (16, 64, "1,8,12,16"), (8, 32, "1,4,8"),
+                   (8, 128, "1,4,8"), (64, 128, "1,16,32,40,48")]
+ANS_DRIVE_THOROUGH = ANS_DRIVE_QUICK + [(2, 6, "1,2"), (4, 8, "1,2,3,4"), (4, 12, "1,2,3,4"), (32, 128, "1,16,24,32"), (16, 128, "1,8,16"), (8, 64, "1,4,8"), (2, 8, "1,2")]
 
 
 def ans_traces(ctx, exact, abstract):
@@ -71,6 +72,7 @@ def c01(ctx):
 def c06(ctx):
     ans_traces(ctx, exact=True, abstract=False)
     range_traces(ctx, exact=True)
+    range_steered(ctx, exact=True)
     ans_states(ctx, ["TypeInv", "StateInv"], "c06")
     range_hists(ctx, ["TypeInv", "StateInv", "RefAgree"], "c06")
     rdec_cases(ctx, "c06")
@@ -120,7 +122,8 @@ RANGE_CLASSES = ["no_renorm", "normal_normal", "normal_inverted", "inverted_inve
                  "seal_one_word", "seal_two_words", "seal_inverted_carry", "seal_inverted_nocarry", "seal_fresh"]
 
 
-RANGE_DRIVE_QUICK = [(8, 16, "1,2,3,4,5,6,7,8"), (2, 4, "1,2"), (2, 6, "1,2"), (3, 6, "1,2,3"), (16, 32, "1,4,8,12,16"), (32, 64, "1,8,12,16,24,32"), (16, 64, "1,8,12,16"), (8, 32, "1,4,8")]
+RANGE_DRIVE_QUICK = [(8, 16, "1,2,3,4,5,6,7,8"), (2, 4, "1,2"), (2, 6, "1,2"), (3, 6, "1,2,3"), (16, 32, "1,4,8,12,16"), (32, 64, "1,8,12,16,24,32"), (16, 64, "1,8,12,16"), (8, 32, "1,4,8"),
+                     (8, 128, "1,4,8"), (64, 128, "1,16,32,40,48")]
 RANGE_DRIVE_THOROUGH = RANGE_DRIVE_QUICK + [(2, 8, "1,2"), (3, 9, "1,2,3"), (4, 8, "1,2,3,4"), (4, 12, "1,2,3,4"), (32, 128, "1,16,24,32"), (64, 128, "1,16,24,32")]
 
 
@@ -138,9 +141,29 @@ def range_traces(ctx, exact):
         ctx.require(c)
 
 
+# (w, s, precision == w so that every steered symbol renormalises)
+STEER_QUICK = [(8, 16, 8), (2, 4, 2), (3, 6, 3), (16, 32, 16), (32, 64, 32), (8, 32, 8), (8, 128, 8), (16, 64, 16)]
+STEER_THOROUGH = STEER_QUICK + [(2, 6, 2), (4, 8, 4), (16, 128, 16), (8, 64, 8), (32, 128, 32)]
+
+
+def range_steered(ctx, exact):
+    """impl -> spec: steered scenarios on the real range coder: runs of 1..300 held-back words (entered and extended by choosing the
+    symbol whose interval contains the wrap point), resolved by a later symbol with / without a carry or sealed directly, with
+    and without temporary views in the middle; views taken while the range is minimal. The driver decodes every message and
+    compares num_words with the view; TLC validates the u8/u16 and tiny-width traces exactly (TraceRange.tla)."""
+    for (w, s, p) in (STEER_THOROUGH if ctx.tier == "thorough" else STEER_QUICK):
+        base = os.path.join(ctx.work, "steer_%d_%d" % (w, s))
+        ctx.vh("drive_range_steered", extra=["--w", str(w), "--s", str(s), "--p", str(p), "--trace", base, "--long"])
+        if exact and s <= 16:
+            ctx.validate_trace("TraceRange", base + ".exact.ndjson", {"W": w, "S": s}, invariants=["StateInv"], what="steered RangeEncoder<%d,%d> exact" % (w, s))
+    for c in ("run_of_9_or_more", "run_of_65_or_more", "run_of_256_or_more", "peek_while_holding_back", "narrow_range"):
+        ctx.require(c)
+
+
 @prop("C02")
 def c02(ctx):
     range_traces(ctx, exact=False)
+    range_steered(ctx, exact=False)
     range_hists(ctx, ["TypeInv", "StateInv", "RoundTrip", "ExhaustedAfter", "EmptyMessage", "InSync"], "c02")
     for c in RANGE_CLASSES + ["iid_batch"]:
         ctx.require(c)
@@ -170,6 +193,7 @@ def c09(ctx):
     chain_cases(ctx, "c09", ["StateInv", "StepInverse"])
     symbol_cases(ctx, "huffman", 4, 3, "c15")      # out-of-alphabet symbols of Huffman codebooks
     model_cases(ctx, "uniform", "c09", uniform_cfgs(ctx))
+    model_cases(ctx, "uniformbig", "c09", UNIFORMBIG)
     model_cases(ctx, "leaky", "c09", leaky_cfgs(ctx))
 
 
@@ -201,6 +225,7 @@ def c18_ans(ctx):
 
 @prop("C08")
 def c08(ctx):
+    range_steered(ctx, exact=False)
     c08_ans(ctx)
     range_hists(ctx, ["TypeInv", "StateInv"], "c08")
     ctx.require("inspect_while_inverted")
@@ -305,6 +330,9 @@ def floatclass_cfgs(ctx):
     return FLOATCLASS_THOROUGH if ctx.tier == "thorough" else FLOATCLASS_QUICK
 
 
+UNIFORMBIG = [(32, 24, 0, 0), (16, 12, 0, 0), (16, 16, 0, 0), (8, 8, 0, 0)]
+
+
 def uniform_cfgs(ctx):
     return [(b, p, 0, 0) for (b, p) in (UNIFORM_THOROUGH if ctx.tier == "thorough" else UNIFORM_QUICK)]
 
@@ -344,6 +372,8 @@ def c03(ctx):
     model_traces(ctx)
     model_cases(ctx, "fixed", "c03", fixed_cfgs(ctx))
     model_cases(ctx, "uniform", "c03", uniform_cfgs(ctx))
+    model_cases(ctx, "uniformbig", "c03", UNIFORMBIG)
+    ctx.require("uniform_big")
     model_cases(ctx, "fast", "c03", fast_cfgs(ctx))
     model_cases(ctx, "leaky", "c03", leaky_cfgs(ctx))
     model_cases(ctx, "leakybig", "c03", leakybig_cfgs(ctx))
@@ -396,8 +426,9 @@ def chain_cases(ctx, mode, laws=None):
         ctx.vh("replay", mode=mode, infile=cases)
 
 
-CHAIN_DRIVE_QUICK = [(8, 16, "1,4,8"), (2, 6, "1,2"), (3, 6, "1,2,3"), (16, 32, "8,12,16"), (32, 64, "16,24,32"), (16, 64, "12,16"), (8, 32, "4,8")]
-CHAIN_DRIVE_THOROUGH = CHAIN_DRIVE_QUICK + [(2, 4, "1,2"), (2, 8, "1,2"), (4, 8, "1,2,3,4"), (3, 9, "1,2,3"), (32, 128, "24,32")]
+CHAIN_DRIVE_QUICK = [(8, 16, "1,4,8"), (2, 6, "1,2"), (3, 6, "1,2,3"), (16, 32, "8,12,16"), (32, 64, "16,24,32"), (16, 64, "12,16"), (8, 32, "4,8"),
+                     (32, 128, "16,24,32"), (8, 128, "4,8"), (64, 128, "24,32,48"), (16, 128, "8,16")]
+CHAIN_DRIVE_THOROUGH = CHAIN_DRIVE_QUICK + [(2, 4, "1,2"), (2, 8, "1,2"), (4, 8, "1,2,3,4"), (3, 9, "1,2,3"), (8, 64, "4,8")]
 
 
 def chain_traces(ctx):
